@@ -70,6 +70,8 @@ var (
 	nBlockedReal int
 	goids        [MaxTasks]uint64
 	realDeadlock bool
+	nInitial     int  // tasks of the world (the rest were started by the library's go statements)
+	leaked       bool // the run ended with library goroutines still blocked
 
 	steps    int64
 	stepBase int64 // steps at the last Progress() call: the cap is per operation
@@ -173,6 +175,8 @@ func Reset(seed uint64, explicitTape []uint64) {
 	}
 	nBlockedReal = 0
 	realDeadlock = false
+	nInitial = 0
+	leaked = false
 	steps = 0
 	stepBase = 0
 	switches = 0
@@ -226,6 +230,7 @@ func Begin(n int) {
 		n = MaxTasks
 	}
 	ntasks = n
+	nInitial = n
 	for i := 0; i < n; i++ {
 		state[i] = tRunnable
 	}
@@ -310,7 +315,7 @@ func TaskEnter(id int) {
 // arrives before the choice is made, not at a moment the Go scheduler picks.
 
 const (
-	blockSpins   = 3000
+	blockSpins   = 400
 	settleRounds = 6
 )
 
@@ -364,6 +369,10 @@ func realBlock() {
 	nBlockedReal++
 	count(cRealBlock)
 	next := pickAny(b)
+	if next < 0 && worldDone() {
+		endWithLeftovers()
+		return
+	}
 	if next < 0 {
 		// nobody can run and nobody can release b: a real deadlock. Tasks that
 		// wait inside the simulator are released to unwind; b is abandoned.
@@ -381,6 +390,53 @@ func realBlock() {
 	}
 	switches++
 	current = next
+}
+
+// worldDone reports whether every task of the world (not counting the
+// goroutines the library started itself) has finished.
+//
+//go:norace
+func worldDone() bool {
+	for i := 0; i < nInitial && i < ntasks; i++ {
+		if state[i] != tDone {
+			return false
+		}
+	}
+	return true
+}
+
+// endWithLeftovers ends the run although library goroutines are still
+// blocked; they are abandoned (the worker process ends after this run).
+//
+//go:norace
+func endWithLeftovers() {
+	for i := nInitial; i < ntasks; i++ {
+		if state[i] != tDone {
+			leaked = true
+		}
+	}
+	active = false
+	current = -1
+}
+
+// Leaked reports whether the run ended with goroutines of the library still
+// blocked (abandoned).
+//
+//go:norace
+func Leaked() bool { return leaked }
+
+// Abandoned is the number of tasks whose goroutines will never finish
+// (blocked outside the simulator, or left over at the end of the run).
+//
+//go:norace
+func Abandoned() int {
+	n := 0
+	for i := 0; i < ntasks; i++ {
+		if state[i] != tDone && (blockedReal[i] || (leaked && i >= nInitial)) {
+			n++
+		}
+	}
+	return n
 }
 
 // settle lets tasks whose real blocking operation has returned arrive.
@@ -509,6 +565,13 @@ func TaskExit(id int) {
 	idle[id] = false
 	clearIdleAll()
 	next := pickAny(id)
+	if next < 0 && worldDone() {
+		// every task of the world has finished; goroutines the library
+		// started and that are still waiting (a worker pool waiting for
+		// work) are left behind - not a defect of the run
+		endWithLeftovers()
+		return
+	}
 	if next < 0 && nBlockedReal > 0 {
 		realDeadlock = true
 	}
@@ -666,7 +729,6 @@ func Yield(site int) {
 	}
 	if nBlockedReal > 0 {
 		arrive()
-		settle()
 	}
 	me := current
 	steps++
@@ -694,6 +756,7 @@ func Yield(site int) {
 	case PolRunToBlock:
 		return
 	case PolPCT:
+		settle()
 		for i := 0; i < nChange; i++ {
 			if changeAt[i] == steps {
 				prio[me] = -int(steps) // lowest so far
@@ -740,7 +803,6 @@ func Seam(code int) {
 	}
 	if nBlockedReal > 0 {
 		arrive()
-		settle()
 	}
 	me := current
 	steps++
@@ -753,6 +815,7 @@ func Seam(code int) {
 		return
 	}
 	if policy == PolPCT {
+		settle()
 		best := me
 		for i := 0; i < ntasks; i++ {
 			if i != me && eligible(i) && prio[i] > prio[best] {
@@ -788,7 +851,6 @@ func PauseOn(key int32, deadline int64) bool {
 	}
 	if nBlockedReal > 0 {
 		arrive()
-		settle()
 	}
 	me := current
 	steps++
